@@ -1130,6 +1130,10 @@ func main() {
 		sum.Count("skeleton " + cls)
 		report(src, o, cls, out, issues, "skeleton")
 		if cls != "formatted" {
+			if cls == "input-rejected-by-parser" && sum.Distribution["skeleton input-rejected-by-parser"] == 1 {
+				_, perr := parser.ParseProgram(nil, []byte(src), parser.Config{})
+				sum.Sample(map[string]any{"skeleton source rejected by the parser (skipped)": src, "error": firstLine(fmt.Sprint(perr))})
+			}
 			continue
 		}
 		distinct[src] = true
